@@ -150,3 +150,29 @@ Proof.
   - intros x Hin H0 j Hj.
     apply (check_typed_sound n Dm fmin n Dm fmin (SignT flip) pi 1 OK (assoc_env Gin) p eqs rho rho' HG Hc2 x Hin H0 j Hj).
 Qed.
+
+(* ---- definite parity of a symmetric input (C07, last clause) ----
+   If the input environment is itself invariant under the generator (every typed input x obeys
+   rho x j = chi(type) * rho x (pi j): for the composition of mirror and toroidal reversal this says that the input is
+   stellarator-symmetric), then every typed output has the same definite parity.  Oracle solutions that the program
+   reads as inputs carry the hypothesis like any other input; the [eqs] half of [sign_law] says that the reflected
+   solution solves the same equations, so the hypothesis holds for them whenever the solution is unique. *)
+Definition parity_law (flip : bool) (Gin : list (string * option bool)) (p : prog) (outs : list (string * bool)) : Prop :=
+  forall (n : nat) (Dm : nat -> nat -> R) (fmin : (nat -> R) -> R) (pi : nat -> nat) (rho : env),
+    sign_action_ok n Dm fmin pi flip -> zero_ok_s (assoc_env Gin) rho ->
+    (forall x b, assoc_env Gin x = Some (Some b) -> forall j, (j < n)%nat -> rho x j = schi b * rho x (pi j)) ->
+    forall x b, In (x, b) outs -> forall j, (j < n)%nat ->
+      run n Dm fmin p rho x j = schi b * run n Dm fmin p rho x (pi j).
+
+Theorem sign_check_parity flip Gin p outs eqs :
+  sign_check flip Gin p outs eqs = true -> parity_law flip Gin p outs.
+Proof.
+  unfold sign_check. intros Hc. apply andb_true_iff in Hc. destruct Hc as [Hc1 _].
+  intros n Dm fmin pi rho [Hn Hperm HD Hpin Hf Hf0] Hz Hsym x b Hin j Hj.
+  pose proof (SignT_ok n Dm fmin pi flip Hn Hperm HD Hpin Hf Hf0) as OK.
+  assert (HG : env_rel n (SignT flip) pi (assoc_env Gin) rho rho).
+  { intros y t Hy. destruct t as [c|]; simpl.
+    - intros k Hk. apply (Hsym y c Hy k Hk).
+    - split; intros k; apply (Hz y Hy). }
+  apply (check_outputs_sound n Dm fmin n Dm fmin (SignT flip) pi 1 OK (assoc_env Gin) p outs rho rho HG Hc1 x b Hin j Hj).
+Qed.
